@@ -50,8 +50,8 @@ func showInspected(ss []*schema.Schema) string {
 	return strings.Join(l, " ")
 }
 
-func runInspect(w *out.W, tier string) {
-	w.Rule = "non-trivial = an inspection whose exclude list removed at least one resource; keyed by (scope, patterns)"
+// inspectDB runs every exclude list through the sequence of inspections on a fresh SQLite database holding tabs.
+func inspectDB(w *out.W, prefix string, tabs cState, lists [][]string) {
 	dir, err := os.MkdirTemp("", "c19insp")
 	if err != nil {
 		panic(err)
@@ -62,11 +62,6 @@ func runInspect(w *out.W, tier string) {
 		panic(err)
 	}
 	defer db.Close()
-	tabs := cState{
-		{"main", [][2]string{{"id", "integer"}, {"main", "integer"}, {"secret", "text"}, {"c1", "integer"}}, "id", []cIdx{{"c1", "c1"}, {"i2", "secret"}}},
-		{"secret", [][2]string{{"main", "integer"}, {"c1", "text"}}, "", []cIdx{{"j1", "main"}}},
-		{"t1", [][2]string{{"c1", "integer"}, {"main", "text"}}, "", nil},
-	}
 	for _, st := range tabs.sql() {
 		if _, err := db.Exec(st); err != nil {
 			panic(err)
@@ -83,40 +78,10 @@ func runInspect(w *out.W, tier string) {
 	}
 	fullShow := showInspected(full.Schemas)
 
-	// pattern lists: every 1- and 2-component pattern over the coinciding names, with the selectors that tell
-	// the levels apart; 3 components (realm scope: schema.table.child; schema scope: too many); lists of two
-	atoms := []string{"main", "secret", "t1", "c1", "*", "m*"}
-	var one, two []string
-	for _, a := range atoms {
-		for _, sl := range []string{"", "[type=table]", "[type=schema]", "[type=column]"} {
-			one = append(one, a+sl)
-		}
-		for _, sl := range []string{"", "[type=column]", "[type=index]", "[type=table]"} {
-			two = append(two, a+sl)
-		}
-	}
-	var lists [][]string
-	lists = append(lists, nil)
-	for _, x := range one {
-		lists = append(lists, []string{x})
-		for _, y := range two {
-			lists = append(lists, []string{x + "." + y})
-		}
-	}
-	for _, x := range []string{"main", "*", "secret"} {
-		for _, y := range []string{"main", "secret", "*", "t1[type=table]"} {
-			for _, z := range two {
-				lists = append(lists, []string{x + "." + y + "." + z})
-			}
-		}
-	}
-	lists = append(lists, []string{"main", "main.secret"}, []string{"main.secret", "main"}, []string{"main.*[type=index]", "secret"},
-		[]string{"main.main", "main.main.main"}, []string{"secret.*", "*.secret"}, []string{"main.[", "t1"}, []string{"t1", "main.["}, []string{"a.b.c.d"}, []string{`"main".secret`})
-
 	n := 0
 	for _, pats := range lists {
 		n++
-		id := fmt.Sprintf("n%d", n)
+		id := fmt.Sprintf("%s%d", prefix, n)
 		// the caller's value: one slice, kept, with spare capacity
 		given := make([]string, len(pats), len(pats)+2)
 		copy(given, pats)
@@ -254,6 +219,49 @@ func runInspect(w *out.W, tier string) {
 		}
 		w.ImplOnly(id, fmt.Sprintf("%q => %s", pats, strings.Join(obs, " | ")))
 	}
+}
+
+func runInspect(w *out.W, tier string) {
+	w.Rule = "non-trivial = an inspection whose exclude list removed at least one resource; keyed by (scope, patterns)"
+	tabs := cState{
+		{"main", [][2]string{{"id", "integer"}, {"main", "integer"}, {"secret", "text"}, {"c1", "integer"}}, "id", []cIdx{{"c1", "c1"}, {"i2", "secret"}}},
+		{"secret", [][2]string{{"main", "integer"}, {"c1", "text"}}, "", []cIdx{{"j1", "main"}}},
+		{"t1", [][2]string{{"c1", "integer"}, {"main", "text"}}, "", nil},
+	}
+	// pattern lists: every 1- and 2-component pattern over the coinciding names, with the selectors that tell
+	// the levels apart; 3 components (realm scope: schema.table.child; schema scope: too many); lists of two
+	atoms := []string{"main", "secret", "t1", "c1", "*", "m*"}
+	var one, two []string
+	for _, a := range atoms {
+		for _, sl := range []string{"", "[type=table]", "[type=schema]", "[type=column]"} {
+			one = append(one, a+sl)
+		}
+		for _, sl := range []string{"", "[type=column]", "[type=index]", "[type=table]"} {
+			two = append(two, a+sl)
+		}
+	}
+	var lists [][]string
+	lists = append(lists, nil)
+	for _, x := range one {
+		lists = append(lists, []string{x})
+		for _, y := range two {
+			lists = append(lists, []string{x + "." + y})
+		}
+	}
+	for _, x := range []string{"main", "*", "secret"} {
+		for _, y := range []string{"main", "secret", "*", "t1[type=table]"} {
+			for _, z := range two {
+				lists = append(lists, []string{x + "." + y + "." + z})
+			}
+		}
+	}
+	lists = append(lists, []string{"main", "main.secret"}, []string{"main.secret", "main"}, []string{"main.*[type=index]", "secret"},
+		[]string{"main.main", "main.main.main"}, []string{"secret.*", "*.secret"}, []string{"main.[", "t1"}, []string{"t1", "main.["}, []string{"a.b.c.d"}, []string{`"main".secret`})
+
+	inspectDB(w, "n", tabs, lists)
+	gtabs, glists := globOnlyFamily()
+	inspectDB(w, "g", gtabs, glists)
+	w.Set("glob_only_lists", len(glists))
 	w.Exhaust = true
 	w.Set("exhaustive_bound", fmt.Sprintf("%d exclude lists (every 1- and 2-component pattern over {main,secret,t1,c1,*,m*} x 4 selectors per level, 3-component samples, lists of two, malformed) x 7 inspections (InspectSchema / InspectRealm alternating with one kept options value, then fresh options) on one SQLite database with tables main, secret, t1", len(lists)))
 }
